@@ -16,7 +16,8 @@ RULE = ("results harvested from the solver over the option space (all non-input-
         "(arrays with NaN==NaN, dtypes of integer arrays, counters, flag, message, evaluation numbers, Jacobian None preserved, table "
         "columns in order, shape and every cell with None==NaN) and str(reloaded) == str(original); replace_nan=False round-trips "
         "through non-strict JSON. Non-trivial = result with a Jacobian, a diagnostic table, a NaN entry or a size beyond a printing "
-        "threshold; distinct by (flag, features, configuration hash)")
+        "threshold; distinct by (flag, features, configuration hash)"
+        ' Second session: residual functions returning float32 / integer arrays / lists of ints; strict dtype equality of every array field; budgets expiring between the samples of a point; extra regression steps under averaging.')
 ASSUMPTIONS = ["row labels of the reloaded diagnostic table come back as strings ('0','1',..) because JSON object keys are strings: treated as "
                "representation, recorded, not raised",
                "findings: +-inf values are not strict JSON (D17); logging.save_xk/save_rk put arrays in the table (D18)"]
